@@ -59,6 +59,7 @@ MUTANTS = {
         ('slice_threshold', r'if message\.len\(\) > SLICE_SIZE \{', 'if message.len() >= SLICE_SIZE {'),
     ],
     'U14': [
+        ('reliable_send_channel_built_with_id_zero', r'SendChannelReliable::new\(channel_config\.channel_id, resend_time,', 'SendChannelReliable::new(0, resend_time,'),
         ('unordered_built_ordered', r'ReceiveChannelReliable::new\(channel_config\.max_memory_usage_bytes, false\)', 'ReceiveChannelReliable::new(channel_config.max_memory_usage_bytes, true)'),
         ('lists_swapped', r'config\.client_channels_config,(\s+)config\.server_channels_config,', r'config.server_channels_config,\1config.client_channels_config,'),
         ('budget_ignored', r'ReceiveChannelUnreliable::new\(channel_config\.channel_id, channel_config\.max_memory_usage_bytes\)', 'ReceiveChannelUnreliable::new(channel_config.channel_id, 0)'),
